@@ -413,6 +413,64 @@ fn clock(threads: usize, readings: usize) {
             }
         }
     }
+    // long sleeps interrupted while WHOLE SECONDS of the request remain: nanosleep returns EINTR with
+    // a remainder >= 1 s and the loop must go back to sleep for all of it.  Each sleeper runs in its
+    // own thread (lane) and is hit by SIGUSR1 (pthread_kill, handler without SA_RESTART) at chosen
+    // offsets by a helper thread (lane + 100) that records a clock reading per signal.  The sleeps
+    // run concurrently, so this costs as long as the longest one (about 2 s).
+    {
+        use std::sync::mpsc;
+        let plans: Vec<(Duration, Vec<u64>)> = vec![
+            (Duration::from_millis(1200), vec![50]),
+            (Duration::from_millis(2050), vec![50, 1100]),
+            (Duration::from_millis(1010), vec![300]),
+            (Duration::new(1, 1), vec![10, 25, 40]),
+            (Duration::from_millis(1500), vec![600]),
+        ];
+        let mut running = vec![];
+        for (k, (d, offs)) in plans.into_iter().enumerate() {
+            let lane = threads + 3 + k;
+            let (ptx, prx) = mpsc::channel::<usize>();
+            let sleeper = std::thread::spawn(move || {
+                ptx.send(unsafe { libc::pthread_self() } as usize).unwrap();
+                let before = mono();
+                let r = guarded(|| tiny_std::thread::sleep(d));
+                let after = mono();
+                let res = match r {
+                    Ok(Ok(())) => "ok".to_string(),
+                    Ok(Err(e)) => format!("err:{e}"),
+                    Err(m) => format!("panic:{m}"),
+                };
+                (before, after, res)
+            });
+            let target = prx.recv().unwrap();
+            let helper = std::thread::spawn(move || {
+                let start = std::time::Instant::now();
+                let mut sent = vec![];
+                for o in offs {
+                    let due = std::time::Duration::from_millis(o);
+                    let now = start.elapsed();
+                    if due > now {
+                        std::thread::sleep(due - now);
+                    }
+                    unsafe { libc::pthread_kill(target as libc::pthread_t, libc::SIGUSR1) };
+                    sent.push(mono());
+                }
+                sent
+            });
+            running.push((lane, d, sleeper, helper));
+        }
+        for (lane, d, sleeper, helper) in running {
+            // the helper is joined first: it must not signal a thread that has been joined already
+            let sent = helper.join().unwrap();
+            let (before, after, res) = sleeper.join().unwrap();
+            for t in &sent {
+                out.ev(&json!({"ev":"intr","lane":lane + 100,"target":lane,"s":t.0,"ns":t.1}));
+            }
+            out.ev(&json!({"ev":"sleep","lane":lane,"ds":d.as_secs(),"dns":d.subsec_nanos(),
+                "bs":before.0,"bns":before.1,"s":after.0,"ns":after.1,"res":res,"signals":sent.len(),"long":true}));
+        }
+    }
     out.flush();
 }
 
